@@ -278,7 +278,14 @@ func (c *Client) connect() error {
 
 	// Client is ok, we now open XMPP session with TLS negotiation if possible and session resume or binding
 	// depending on state.
-	if c.Session, err = NewSession(c, state); err != nil {
+	// A negotiation that fails before authentication (features never received, TLS not negotiated) returns no
+	// session: the Session object of the previous connections is kept then. It carries the stream-management state
+	// (id, counters, the stanzas awaiting their acknowledgement), which the next attempt needs in order to resume.
+	session, err := NewSession(c, state)
+	if session != nil {
+		c.Session = session
+	}
+	if err != nil {
 		// Try to get the stream close tag from the server: on the connection that failed. The decoder is taken here and
 		// not inside the go routine, which may only get to run when the next attempt has replaced the connection:
 		// it would then read the new connection next to the negotiation going on there.
